@@ -116,6 +116,33 @@ CHECKS = {
         "Spherical polar-stereographic grids up to 40x30; solver tolerance 1e-7 deg^2 as the statement allows.",
         "DESIGN.md §2 C16",
     ),
+    "C09": (
+        "model_checking",
+        "exhaustive lattice of masks x flow directions x speeds x schemes on the real ROMS Grid + Tracker with exactly known targets (trichotomy oracle); deviation-bounded scripted diffusion; Model-level invariants",
+        "For every (mask of 5, direction of 8, speed of 3, scheme, subgrid) with particles on every sea-cell centre and offsets of the valid region and one "
+        "inactive particle, 4 steps: each particle is dead-and-unmoved if its exactly known target leaves the valid region, unmoved if the target cell is land, "
+        "else at the target; alive flags monotone; diffusion scripts with 0, 1 (2 in thorough) deviations from {+-0.7, +-3 cells}; assembled Model on ROMS "
+        "forcing: living particles finite, inside, at sea after every update, pids that left the output never return.",
+        "Valid region taken from the documented +-1/2 margin; positions off the half-cell lines; an inactive particle whose hypothetical move leaves the grid may be marked dead.",
+        "DESIGN.md §2 C09",
+    ),
+    "C11": (
+        "model_checking",
+        "exhaustive parameter lattice with the random generator replaced by a scripted provenance-tagged source: exact algebraic displacement identity per particle, direction and step",
+        "For every (D, Dz, dt, dx/dy, particles, steps, advection) on the lattice every displacement equals sqrt(2 D dt)/dx (sqrt(2 Dz dt) in depth) times a value "
+        "drawn in that very step, no drawn value drives two components, nothing else is added, zero coefficients give bit-identical positions. Mean, variance and "
+        "independence then follow from numpy's Generator.normal being i.i.d. N(0,1).",
+        "Distributional claim reduced to an algebraic one; numpy's generator is the trusted base; no sample statistics are computed (that would be sampling).",
+        "DESIGN.md §2 C11",
+    ),
+    "C15": (
+        "model_checking",
+        "exhaustive lattice of bottom depths x start depths x vertical displacements (diffusion / w / both) x schemes x cell-crossing flows on the real Tracker with scripted draws",
+        "Every (h, neighbour deeper/shallower, start depth, displacement up to 0.99 h from scripted diffusion and/or w, scheme, flow carrying the particle into "
+        "the neighbour cell or not) over 2 steps: 0 <= Z <= h(start cell) and the exact reflection value; both switches off: Z bit-identical; slice on the real ROMS Grid bathymetry.",
+        "|displacement| < h as the statement requires.",
+        "DESIGN.md §2 C15",
+    ),
 }
 
 PENDING_REASON = "check not built yet (work in progress, see DESIGN.md §11 build order)"
